@@ -217,6 +217,9 @@ func checkC07(c *Ctx) {
 	// ---- C07-EXACT: an integer quotient is the result only when the remainder is zero
 	c.checkExactDivision(scope)
 
+	// ---- C07-UNS: an unsigned value does not pass through a signed integer on its way to float64
+	c.checkUnsignedToFloat(scope)
+
 	// ---- C07-OPS (AST)
 	c.checkCompareOps()
 
@@ -785,4 +788,69 @@ func (c *Ctx) checkExactDivision(scope []*ssa.Function) {
 	if n < 2 {
 		c.undecided("C07-EXACT", "numerictower.go", "integer quotients", token.NoPos, fmt.Sprintf("only %d integer divisions found in the numeric tower", n))
 	}
+}
+
+func isUint64(t types.Type) bool {
+	b, ok := t.Underlying().(*types.Basic)
+	return ok && (b.Kind() == types.Uint64 || b.Kind() == types.Uint || b.Kind() == types.Uintptr)
+}
+func isSignedInt(t types.Type) bool {
+	b, ok := t.Underlying().(*types.Basic)
+	return ok && b.Info()&types.IsInteger != 0 && b.Info()&types.IsUnsigned == 0
+}
+func isFloatT(t types.Type) bool {
+	b, ok := t.Underlying().(*types.Basic)
+	return ok && b.Info()&types.IsFloat != 0
+}
+
+// checkUnsignedToFloat: float64(int64(u)) for a uint64 u is negative from 2^63 on.
+func (c *Ctx) checkUnsignedToFloat(scope []*ssa.Function) {
+	direct := 0
+	for _, f := range scope {
+		eachInstr(f, func(b *ssa.BasicBlock, i int, in ssa.Instruction) {
+			cv, ok := in.(*ssa.Convert)
+			if !ok {
+				return
+			}
+			if isFloatT(cv.Type()) && isUint64(cv.X.Type()) {
+				direct++ // the sound promotion
+				return
+			}
+			if !isSignedInt(cv.Type()) || !isUint64(cv.X.Type()) {
+				return
+			}
+			// uint64 -> signed: where does it go?
+			bad := ""
+			for _, ref := range *cv.Referrers() {
+				switch x := ref.(type) {
+				case *ssa.Convert:
+					if isFloatT(x.Type()) {
+						bad = "and then converted to float64"
+					}
+				case ssa.CallInstruction:
+					g := x.Common().StaticCallee()
+					if g == nil || fnPkgPath(g) != zygoPath {
+						continue
+					}
+					for ai, a := range x.Common().Args {
+						if a != ssa.Value(cv) || ai >= len(g.Params) {
+							continue
+						}
+						for _, pr := range *g.Params[ai].Referrers() {
+							if c2, ok := pr.(*ssa.Convert); ok && isFloatT(c2.Type()) {
+								bad = "and handed to " + fnName(g) + ", which converts it to float64"
+							}
+						}
+					}
+				}
+			}
+			if bad != "" {
+				c.bad("C07-UNS", fnName(f), "uint64 through a signed integer to float64", cv.Pos(),
+					"an unsigned 64-bit value is reinterpreted as a signed integer "+bad+": from 2^63 on the value is negative, so mixed or inexact unsigned arithmetic is wrong at the top half of the range")
+			}
+		})
+	}
+	c.check(direct >= 2, "C07-UNS", "numerictower.go", "unsigned operands are promoted with float64(u)", token.NoPos,
+		fmt.Sprintf("%d direct uint64→float64 promotions found, none routed through a signed integer", direct),
+		fmt.Sprintf("only %d direct uint64→float64 promotions found in the numeric tower", direct))
 }
